@@ -29,7 +29,7 @@ EXTRACT = os.path.join(COQ, "extract")
 REPO = os.environ.get("VERIF_REPO", "/repo")
 # evidence/ only ever holds what a full check wrote against /repo itself; runs against a scratch tree
 # (VERIF_REPO, seeded-change tests) or restricted runs (C11_ONLY) write under work/ (git-ignored)
-_SCRATCH_RUN = REPO != "/repo" or bool(os.environ.get("C11_ONLY"))
+_SCRATCH_RUN = REPO != "/repo" or bool(os.environ.get("C11_ONLY")) or bool(os.environ.get("VERIF_SCRATCH"))
 EVIDENCE = os.path.join(ROOT, "work", "evidence_scratch") if _SCRATCH_RUN else os.path.join(ROOT, "evidence")
 REPLAYS = os.path.join(ROOT, "replays")
 KNOWN = os.path.join(ROOT, "KNOWN_FINDINGS.txt")
